@@ -10,6 +10,7 @@ import (
 	_ "verif/mc/gx"
 	_ "verif/mc/hist"
 	_ "verif/mc/ix"
+	"verif/mc/sx"
 )
 
 func usage() int {
@@ -45,6 +46,13 @@ func run() int {
 		n, _ := strconv.Atoi(a[4])
 		seed, _ := strconv.ParseInt(a[5], 10, 64)
 		return explore.WorkerMain(a[1], a[2], s, n, seed)
+	case "racepass":
+		tier := "quick"
+		if len(a) > 1 {
+			tier = a[1]
+		}
+		sx.RacePassMain(tier)
+		return 0
 	case "replay":
 		if len(a) != 2 {
 			return usage()
